@@ -351,6 +351,15 @@ func (in *inst) prov1(v ssa.Value) prov {
 		}
 		return prov{}
 	case *ssa.FreeVar:
+		// a local captured by reference: the closure may run on another
+		// goroutine (e.g. GetMessagesStats.cancel); class = function.variable
+		if pt, ok := v.Type().Underlying().(*types.Pointer); ok {
+			if n, _ := a.repoStruct(pt.Elem()); n == "" && v.Parent() != nil && v.Parent().Parent() != nil {
+				if _, isPtr := pt.Elem().Underlying().(*types.Pointer); !isPtr {
+					return prov{pAddr, a.fnName(v.Parent().Parent()) + "." + v.Name()}
+				}
+			}
+		}
 		return prov{}
 	case *ssa.Global:
 		if v.Pkg != nil && a.repoPkgs[v.Pkg.Pkg.Path()] {
@@ -1167,7 +1176,7 @@ func (a *Analyzer) resolveDynamic(c *ssa.CallCommon) []dynTarget {
 			return nil // func(): too unspecific (cancel functions, callbacks)
 		}
 		for _, f := range a.allFuncs {
-			if f.Synthetic != "" || f.Parent() != nil {
+			if f.Synthetic != "" {
 				continue
 			}
 			if !sameResults(sig, f.Signature) || sig.Variadic() != f.Signature.Variadic() {
